@@ -270,8 +270,9 @@ def harnesses(tier):
     ]
     for m in ('_evaluate_variables', '_evaluate_let_bindings', '_evaluate_fields', '_resolve_tags'):
         hs.append(Harness('MerchantEngine.' + m, h_engine_method(m), [ME + 'MerchantEngine.' + m]))
-    from props import C08_callers
+    from props import C08_callers, C08_let
     hs += C08_callers.harnesses(tier)
+    hs += C08_let.harnesses(tier)
     return hs
 
 
